@@ -49,6 +49,9 @@ CHECKS = {
  "C18": ("exploration", "runtime monitor: canary integers on every member of random package trees, every path accessed through read/call/write routes from outside and through inside getters, judged by a visibility model",
          "Random trees of nested packages with value, function and hash members (upper/lower/underscore/non-ASCII first runes) are built in the real interpreter; every member path is accessed from outside through the package, aliases and a hash holding it; a private read is observed when the member's unique canary shows up, a private write when the package's own getter reports a changed value; public paths must resolve and inside code must keep access.",
          "Trusted: the 30-line visibility model (capitalisation at the last hop and before entering a hash; packages traversable; hash keys are not members).", "DESIGN.md §4.C18"),
+ "C12": ("exploration", "runtime monitor: values built through the Go API printed by the real printer and read back by the real reader, structural equality walker; literal spellings from the documented grammar vs strconv/math/big",
+         "Thousands of data values over every rune class, float magnitude and nesting are printed and read back ((read (str v)), (eval (read (str v))), source of a scratch file) and compared structurally; every literal spelling generated from the reader's own grammar in four contexts is evaluated and compared with the exact value; character and string literals of 278 runes are checked.",
+         "Trusted: strconv/math/big; the literal grammar is transcribed from the reader's regular expressions; a float printing without fraction may read back as an equal int.", "DESIGN.md §4.C12"),
 }
 
 NA_REASON = {}
